@@ -556,7 +556,7 @@ def record(inst, timeout=60.0, extra_return=None, rng_state=None):
 def doc_rhoend(inst, nmax):
     """rhoend as rescaled by the documented per-restart factor, computed from the arguments with the solver's operation order"""
     r = float(inst.get("rhoend", 1e-6))
-    s = float(inst.get("rhoend_scale", 1.0)) if inst.get("restarts", "none") != "none" else 1.0
+    s = float(inst.get("rhoend_scale", 1.0))  # the parameter is passed whenever the instance names it (restarts may also be on via objfun_has_noise)
     out = [r]
     for _ in range(nmax):
         r = s * r
